@@ -12,7 +12,7 @@ def run(tier):
                 "rename for named plain/compressed outputs incl. rotation onto an existing name; traces: each scenario (writers "
                 "directly and through the exporter; plain/gzip/xz; several rotations; rotation onto an existing name, onto the "
                 "name in use (a -> a) and back onto an earlier one (a -> b -> a); '.part' files left by a run that died; "
-                "compressed outputs closed while the compressor holds back tens of KiB; a final rotation that cannot succeed; a rename the environment refuses; destruction with and without buffered data) is first run to completion, then re-run in a child that is "
+                "compressed outputs closed while the compressor holds back tens of KiB; a final rotation that cannot succeed; a rename the environment refuses; final names that exist as symbolic links; destruction with and without buffered data) is first run to completion, then re-run in a child that is "
                 "killed immediately before its k-th write/writev/rename for EVERY k; TLC checks every post-crash directory; "
                 "distinct = crash points")
     chk.assumptions = ["TLC + CommunityModules", "write/writev/rename interposed in the driver executable (libc/libstdc++ "
@@ -45,6 +45,8 @@ def run(tier):
     scs += pending_scenarios(tier)
     scs += failed_rotation_scenarios(tier)
     scs += refused_rename_scenarios(tier)
+    # final names that already exist as symbolic links to an earlier output
+    scs += [dict(s, id=s["id"] + 30000, pre=[], presym=[1, 2]) for s in scs if s["id"] % 4 == 1 and "rename_fail" not in s and "prepart" not in s][:24]
     # '.part' files left by an earlier run that died while producing the same names: the new outputs start afresh
     stale = [dict(s, id=s["id"] + 20000, prepart=[1, 2, 3]) for s in scs if s["id"] % 3 == 0]
     scs += stale
